@@ -396,7 +396,7 @@ def make_oracle_c03(f_of):
             c = content(spec_rm_tc(final, i, i + 1))
             if f(c) is not False:
                 ck.violation(f"not 1-minimal: deleting atom {i} of the final file gives {c!r}, which the "
-                             f"(deterministic) test accepts", replay_doc(ctx, run, atom=i))
+                             f"(deterministic) test accepts", replay_doc(ctx, run, atom_index=i))
                 return
     return orc
 
@@ -465,7 +465,7 @@ def make_oracle_c13(f_of):
                 c = content(rm_atoms(final, {i - 1, i + 1}))
                 if f(c) is not False:
                     ck.violation(f"minimize-around stopped although deleting the neighbours of atom {i} "
-                                 f"({c!r}) is not known to be rejected", replay_doc(ctx, run, atom=i))
+                                 f"({c!r}) is not known to be rejected", replay_doc(ctx, run, atom_index=i))
                     return
         else:
             if not all(final[2]) or n < 2:
@@ -482,7 +482,7 @@ def make_oracle_c13(f_of):
                     what = f"atom {i} with its partner {j}"
                 if f(c) is not False:
                     ck.violation(f"minimize-balanced stopped although deleting {what} ({c!r}) is not known "
-                                 f"to be rejected", replay_doc(ctx, run, atom=i))
+                                 f"to be rejected", replay_doc(ctx, run, atom_index=i))
                     return
     return orc
 
